@@ -547,6 +547,10 @@ def discharge_guarded_getter(site):
                         cands.append((true_t, "%d <= len" % K))
         else:
             dd = single_def(body, l)
+            hops = 0
+            while dd and dd[2] == "assign" and dd[3]["rv"]["k"] == "use" and op_local(dd[3]["rv"]["a"]) is not None and hops < 4:
+                dd = single_def(body, op_local(dd[3]["rv"]["a"]))
+                hops += 1
             if dd and dd[2] == "call" and re.search(r"::is_empty$", callee_path(dd[3])) and need_const == 1:
                 rp2 = receiver_place(body, dd[3])
                 if rp2 is not None and place_key(rp2) == rkey and zero_t is not None:
